@@ -222,6 +222,8 @@ package coroutines
 //@ ghostdb coroutine
 //@ nopanic C13
 //@ requires c != nil && config != nil && tags != nil
+// every expired promise is completed through its own command: the command handed to a spawned completion is allocated for this record (a coroutine spawned earlier may still read its own) and names this record (C05: each completion converts the registrations of the promise it completes)
+//@ site loop 1 call completePromise assert cmd != nil && iterfresh(cmd) && cmd.Id == r.Id && cmd.CompletedOn == r.Timeout
 
 //@ func TimeoutTasks$1
 //@ props C07 C08 C02
@@ -242,6 +244,8 @@ package coroutines
 //@ site loop 3 batch assert cmd.Kind == t_aio.UpdateTask && cmd.UpdateTask != nil && cmd.UpdateTask.Id == t.Id && cmd.UpdateTask.Counter == t.Counter && cmd.UpdateTask.CurrentCounter == t.Counter && mask(cmd.UpdateTask.CurrentStates) == task.Init
 //@ site loop 3 batch assert cmd.UpdateTask.State == task.Enqueued ==> err == nil && completion.Sender.Success && decodedT.Mesg.Type != message.Notify
 //@ site loop 3 batch assert decodedT.Mesg.Type == message.Notify ==> cmd.UpdateTask.State == task.Completed
+// the deadline until which a dispatched task waits to be claimed (or retried) is the configured delay, in the clock's unit (milliseconds)
+//@ site loop 3 batch assert cmd.UpdateTask.State != task.Completed ==> cmd.UpdateTask.ExpiresAt >= now0() + config.TaskEnqueueDelay / 1000000 && cmd.UpdateTask.ExpiresAt <= now() + config.TaskEnqueueDelay / 1000000
 //@ site loop 3 batch assert decodedT.Mesg.Type != message.Notify && !(err == nil && completion.Sender.Success) ==> cmd.UpdateTask.State == task.Init && cmd.UpdateTask.Attempt == t.Attempt + 1
 
 //@ func SchedulePromises$1
